@@ -45,7 +45,7 @@ type Member struct {
 
 // PassThroughNames lists the non-buffering interceptors of C01's chains.
 var PassThroughNames = []string{
-	"nack-generator", "nack-generator-limited", "nack-responder", "nack-responder-rtx", "report-receiver", "report-sender", "twcc-sender", "twcc-header-extension",
+	"nack-generator", "nack-generator-limited", "nack-responder", "nack-responder-rtx", "nack-responder-small", "report-receiver", "report-sender", "twcc-sender", "twcc-header-extension",
 	"rfc8888", "rtpfb", "stats", "packetdump-sender", "packetdump-receiver", "packetdump-sender-filtered", "packetdump-receiver-filtered", "intervalpli", "flexfec", "cc-noop-pacer", "noop",
 }
 
@@ -93,6 +93,9 @@ func NewMember(name string, interval time.Duration) Member { //nolint:cyclop
 	case "nack-generator-limited":
 		m.Factory = must(nack.NewGeneratorInterceptor(nack.GeneratorInterval(interval), nack.GeneratorSize(128), nack.GeneratorMaxNacksPerPacket(2), nack.GeneratorSkipLastN(1),
 			nack.WithGeneratorLoggerFactory(lf)))
+	case "nack-responder-small":
+		// a history of four packets: packets are evicted (and their pooled buffers reused) while retransmissions of them are still being written
+		m.Factory = must(nack.NewResponderInterceptor(nack.ResponderSize(4), nack.WithResponderLoggerFactory(lf)))
 	case "nack-responder":
 		m.Factory = must(nack.NewResponderInterceptor(nack.ResponderSize(64), nack.WithResponderLoggerFactory(lf)))
 	case "nack-responder-rtx":
